@@ -65,41 +65,59 @@ def unlit(idx):
     return 0 if v == 0 else (v if idx % 2 else -v)
 
 
-def prefix(setup, nx):
+def prefix(setup, nx, batches):
+    """creation calls: the variables, the assertion literals (literal i = atom i), one decision variable per batch of
+    several literals with the clauses that make it imply them in order, a propagation"""
     lines = [js({'e': 'reset', 'profile': 'lra', 'dlsize': 16})] + [js({'e': 'lra_new_var'})] * nx
     for (x, o, v) in setup['atoms']:
         (cn, cd), (kn, kd) = v
         rel = {('leq', 0): 'leq', ('leq', -1): 'lt', ('geq', 0): 'geq', ('geq', 1): 'gt'}[(o, kn)]
         lines.append(js({'e': 'lra_rel', 'rel': rel, 'l': lin_of(setup, nx, x), 'r': {'v': [], 'k': [cn, cd]}}))
+    na = len(setup['atoms'])
+    for k, ps in enumerate(batches):
+        lines.append(js({'e': 'new_var'}))
+    for k, ps in enumerate(batches):
+        for q in ps:
+            lines.append(js({'e': 'new_clause', 'lits': [lit(-(na + 1 + k)), lit(q)]}))
     lines.append(js({'e': 'propagate'}))
     return lines
 
 
 def translate(setup, t):
-    """-> (lines, checkpoints) or None when the history ends with a bare push"""
+    """-> (lines, checkpoints) or None when the history cannot be replayed (a bare push at the end, several literals in one
+    batch at root level)"""
     nx = t['nx']
-    lines = prefix(setup, nx)
-    cps = []
     ops = t['ops']
     if ops[-1]['k'] == 'push':
         return None
-    level = 0
+    na = len(setup['atoms'])
+    batches = []
+    for i, o in enumerate(ops):
+        if o['k'] in ('assert', 'conflict') and len(o['p']) > 1:
+            if i == 0 or ops[i - 1]['k'] != 'push':
+                return None
+            batches.append(o['p'])
+    lines = prefix(setup, nx, batches)
+    cps = []
     i = 0
+    nb = 0
     while i < len(ops):
         o = ops[i]
         if o['k'] == 'push':
-            level += 1
             o = ops[i + 1]
-            lines.append(js({'e': 'assume', 'p': lit(o['p'])}))
+            if len(o['p']) > 1:
+                lines.append(js({'e': 'assume', 'p': lit(na + 1 + nb)}))
+                nb += 1
+            else:
+                lines.append(js({'e': 'assume', 'p': lit(o['p'][0])}))
             cps.append((len(lines) - 1, o))
             i += 2
         elif o['k'] == 'pop':
-            level -= 1
             lines.append(js({'e': 'pop'}))
             cps.append((len(lines) - 1, o))
             i += 1
         else:
-            lines.append(js({'e': 'new_clause', 'lits': [lit(o['p'])]}))
+            lines.append(js({'e': 'new_clause', 'lits': [lit(o['p'][0])]}))
             lines.append(js({'e': 'propagate'}))
             cps.append((len(lines) - 1, o))
             i += 1
@@ -114,8 +132,8 @@ def conforms(setup, t, cps, ex, first):
         ln = ex[nx + a]
         if ln.get('e') != 'lra_rel' or ln.get('ret') != lit(a + 1):
             raise vlib.CheckError('unexpected literal numbering in the replay: %s' % json.dumps(ln)[:300])
-    if len(ex[nx + na]['obs']['lra']) != nv:
-        raise vlib.CheckError('unexpected number of arithmetic variables in the replay: %d for %d' % (len(ex[nx + na]['obs']['lra']), nv))
+    if len(ex[nx + na - 1]['obs']['lra']) != nv:
+        raise vlib.CheckError('unexpected number of arithmetic variables in the replay: %d for %d' % (len(ex[nx + na - 1]['obs']['lra']), nv))
     for (idx, o) in cps:
         if o['k'] == 'conflict':
             return 'conflict'          # the rest is the sat core's analysis: decided by the arbiter
@@ -149,12 +167,14 @@ def conforms(setup, t, cps, ex, first):
     return None
 
 
-def run(ev, prop, tier, cfgs, max_arbiter=2500):
+def run(ev, prop, tier, cfgs, max_arbiter=None):
+    max_arbiter = max_arbiter or (1200 if tier == 'quick' else 6000)
     vlib.build_repo('dbg', targets=['smt'])
     drv = vlib.build_driver('net_driver', 'dbg')
     rd = vlib.run_dir('%s-lraimpl' % prop)
     total = exact = conflicts = 0
     to_arbiter, first_dev, n_dev = [], None, 0
+    batch_conflicts, other_conflicts = [], []
     for cfg in cfgs:
         path, stats = generate(cfg, rd, 900 if tier == 'quick' else 3400)
         stats['what'] = 'test generation: one test per transition of LraImpl between abstract states (%s)' % cfg
@@ -190,8 +210,12 @@ def run(ev, prop, tier, cfgs, max_arbiter=2500):
                     exact += 1
                 elif d == 'conflict':
                     conflicts += 1
-                    if len(to_arbiter) < max_arbiter:
-                        to_arbiter.append(outs[k])
+                    # conflicts of a batch of several literals first (only they reach the "assigned but not yet propagated"
+                    # branches of the theory), the others as far as the budget goes
+                    if len(t['ops'][-1]['p']) > 1:
+                        batch_conflicts.append(outs[k])
+                    else:
+                        other_conflicts.append(outs[k])
                 else:
                     n_dev += 1
                     first_dev = first_dev or d
@@ -205,7 +229,8 @@ def run(ev, prop, tier, cfgs, max_arbiter=2500):
     if first_dev:
         ev.cov['lraimpl_first_deviation'] = first_dev
         vlib.log('[lraimpl] %d of %d executions deviate from LraImpl (first: %s): NetworkTrace decides' % (n_dev, total, first_dev))
-    to_arbiter = to_arbiter[:max_arbiter]
+    step = max(1, len(other_conflicts) // max(1, max_arbiter // 2))
+    to_arbiter = (to_arbiter + batch_conflicts + other_conflicts[::step])[:max_arbiter]
     ev.cov['lraimpl_decided_by_NetworkTrace'] = len(to_arbiter)
     if to_arbiter:
         flat = [ln for e in to_arbiter for ln in e]
